@@ -88,6 +88,12 @@ pub assume_specification<T, E, G, F: FnOnce(E) -> Result<T, G>> [ Result::<T, E>
 pub assume_specification<T, E, F: FnOnce(T) -> bool> [ Result::<T, E>::is_ok_and ] (o: Result<T, E>, f: F) -> (r: bool)
     requires o is Ok ==> f.requires((o->Ok_0,)),
     ensures o is Err ==> !r, o is Ok ==> f.ensures((o->Ok_0,), r);
+pub assume_specification<T, P: FnOnce(&T) -> bool> [ Option::<T>::filter ] (o: Option<T>, p: P) -> (r: Option<T>)
+    requires o is Some ==> p.requires((&o->0,)),
+    ensures o is None ==> r is None,
+            o is Some ==> exists|b: bool| p.ensures((&o->0,), b) && r == (if b { o } else { None::<T> });
+pub assume_specification<T: Clone> [ <[T]>::to_vec ] (s: &[T]) -> (r: Vec<T>)
+    ensures r@.len() == s@.len(), forall|i: int| 0 <= i < s@.len() ==> cloned(s@[i], #[trigger] r@[i]);
 pub assume_specification<T, E, F: FnOnce(E) -> bool> [ Result::<T, E>::is_err_and ] (o: Result<T, E>, f: F) -> (r: bool)
     requires o is Err ==> f.requires((o->Err_0,)),
     ensures o is Ok ==> !r, o is Err ==> f.ensures((o->Err_0,), r);
@@ -237,6 +243,22 @@ impl Uint128 {
     #[verifier::external_body]
     pub fn to_string(&self) -> (r: String) ensures r@ == u128_str(self.v as int) { unimplemented!() }
 }
+impl Uint128 {
+    pub fn one() -> (r: Uint128) ensures r.v == 1 { Uint128 { v: 1 } }
+    pub fn default() -> (r: Uint128) ensures r.v == 0 { Uint128 { v: 0 } }
+    pub exec const MAX: Uint128 ensures Self::MAX.v == u128::MAX { Uint128 { v: u128::MAX } }
+}
+impl RemSpecImpl<Uint128> for Uint128 {
+    open spec fn obeys_rem_spec() -> bool { false }
+    open spec fn rem_req(self, rhs: Uint128) -> bool { strict() ==> rhs.v != 0 }
+    open spec fn rem_spec(self, rhs: Uint128) -> Uint128 { arbitrary() }
+}
+impl core::ops::Rem for Uint128 {
+    type Output = Uint128;
+    /// cosmwasm: `Self(self.0.rem(rhs.0))`, aborts on a zero divisor
+    #[verifier::external_body]
+    fn rem(self, rhs: Uint128) -> (r: Uint128) ensures rhs.v != 0, r.v == self.v % rhs.v { unimplemented!() }
+}
 impl FromSpecImpl<Uint128> for u128 {
     open spec fn obeys_from_spec() -> bool { true }
     open spec fn from_spec(x: Uint128) -> u128 { x.v }
@@ -250,7 +272,10 @@ impl From<u128> for Uint128 { fn from(x: u128) -> (r: Uint128) { Uint128 { v: x 
 
 #[derive(Debug)] pub struct OverflowError {}
 #[derive(Debug)] pub enum StdError { GenericErr { msg: String }, Overflow { source: OverflowError }, NotFound { kind: String } }
-impl StdError { #[verifier::external_body] pub fn generic_err(m: &str) -> (r: StdError) { unimplemented!() } }
+impl StdError {
+    #[verifier::external_body] pub fn generic_err(m: &str) -> (r: StdError) { unimplemented!() }
+    #[verifier::external_body] pub fn not_found(kind: &str) -> (r: StdError) { unimplemented!() }
+}
 pub type StdResult<T> = Result<T, StdError>;
 #[derive(Debug)] pub struct SemverError {}
 #[derive(Debug)] pub struct UuidError {}
@@ -306,6 +331,8 @@ impl Decimal {
     { unimplemented!() }
     #[verifier::external_body]
     pub fn zero() -> (r: Decimal) ensures r.q@ == 0, !r.w@, !r.nz@ { unimplemented!() }
+    pub exec const ZERO: Decimal ensures Self::ZERO.q@ == 0, !Self::ZERO.w@, !Self::ZERO.nz@ { Decimal { q: Ghost(0), w: Ghost(false), nz: Ghost(false) } }
+    pub exec const ONE: Decimal ensures Self::ONE.q@ == of_int(1), !Self::ONE.w@, !Self::ONE.nz@ { Decimal { q: Ghost(of_int(1)), w: Ghost(false), nz: Ghost(false) } }
     #[verifier::external_body]
     pub fn is_zero(&self) -> (r: bool) ensures r == (self.q@ == 0) { unimplemented!() }
     #[verifier::external_body]
@@ -407,6 +434,7 @@ impl PartialEq for Addr { fn eq(&self, other: &Addr) -> (r: bool) { self.s == ot
 impl Addr {
     pub fn to_string(&self) -> (r: String) ensures r@ == self.s@ { self.s.clone() }
     pub fn into_string(self) -> (r: String) ensures r@ == self.s@ { self.s }
+    pub fn as_str(&self) -> (r: &str) ensures r@ == self.s@ { self.s.as_str() }
     #[verifier::external_body] pub fn unchecked(s: &str) -> (r: Addr) ensures r.s@ == s@ { unimplemented!() }
 }
 #[derive(Debug)] pub struct Coin { pub denom: String, pub amount: Uint128 }
@@ -460,6 +488,13 @@ impl<V: MapStored> CwMap<V> {
     pub fn is_empty(&self, store: &Storage) -> (r: bool)
         ensures r == V::m_empty(store@)
     { unimplemented!() }
+    /// cw-storage-plus: `has` looks at the raw key only
+    #[verifier::external_body]
+    pub fn has(&self, store: &Storage, k: &[u8]) -> (r: bool)
+        ensures r == V::m_raw(store@, k@)
+    { unimplemented!() }
+    /// cw-storage-plus: `Map::load/may_load/save/remove/update(store, k, ..)` are `self.key(k).load/..(store, ..)`
+    pub fn key<'a>(&self, k: &'a [u8]) -> (r: Path<'a, V>) ensures r.k@ == k@ { Path { k, p: Ghost(None) } }
     /// rule R7: keys of this namespace whose value deserialises as V
     #[verifier::external_body]
     pub fn keys_that_load(&self, store: &Storage) -> (r: Vec<Vec<u8>>)
@@ -491,6 +526,27 @@ impl<V: MapStored> CwMap<V> {
             // no-abort / no-error direction: the only other error source is the action itself
             (!(V::m_raw(old(store)@, k@) && V::m_get(old(store)@, k@) is None)
                 && (forall|x: Result<V, E>| action.ensures((V::m_get(old(store)@, k@),), x) ==> x is Ok)) ==> r is Ok,
+    { unimplemented!() }
+}
+pub struct Path<'a, V> { pub k: &'a [u8], pub p: Ghost<Option<V>> }
+impl<'a, V: MapStored> Path<'a, V> {
+    #[verifier::external_body]
+    pub fn load(&self, store: &Storage) -> (r: Result<V, StdError>)
+        ensures match V::m_get(store@, self.k@) { Some(v) => r == Ok::<V, StdError>(v), None => r is Err }
+    { unimplemented!() }
+    #[verifier::external_body]
+    pub fn may_load(&self, store: &Storage) -> (r: Result<Option<V>, StdError>)
+        ensures match V::m_get(store@, self.k@) {
+            Some(v) => r == Ok::<Option<V>, StdError>(Some(v)),
+            None => if V::m_raw(store@, self.k@) { r is Err } else { r == Ok::<Option<V>, StdError>(None) } }
+    { unimplemented!() }
+    #[verifier::external_body]
+    pub fn save(&self, store: &mut Storage, v: &V) -> (r: Result<(), StdError>)
+        ensures r is Ok, final(store)@ == V::m_put(old(store)@, self.k@, *v)
+    { unimplemented!() }
+    #[verifier::external_body]
+    pub fn remove(&self, store: &mut Storage)
+        ensures final(store)@ == V::m_del(old(store)@, self.k@)
     { unimplemented!() }
 }
 pub struct Item<V> { pub ns: &'static str, pub p: Ghost<Option<V>> }
@@ -579,6 +635,14 @@ impl Response {
     #[verifier::external_body]
     pub fn add_message<M: IntoMsg>(self, m: M) -> (r: Response)
         ensures r.attrs == self.attrs, r.msgs@ == self.msgs@.push(m.msg_spec())
+    { unimplemented!() }
+    /// cosmwasm: `Response::default()` is what `new()` returns
+    pub fn default() -> (r: Response) ensures r.msgs@ == Seq::<Msg>::empty(), r.attrs@ == Seq::<(Seq<char>, Seq<char>)>::empty()
+    { Response { msgs: Ghost(Seq::empty()), attrs: Ghost(Seq::empty()) } }
+    /// cosmwasm: extends the message list by the given ones, in order
+    #[verifier::external_body]
+    pub fn add_messages<M: IntoMsg>(self, ms: Vec<M>) -> (r: Response)
+        ensures r.attrs == self.attrs, r.msgs@ == self.msgs@ + Seq::new(ms@.len(), |i: int| ms@[i].msg_spec())
     { unimplemented!() }
 }
 pub enum BankMsg { Send { to_address: String, amount: Vec<Coin> } }
